@@ -83,6 +83,16 @@ def build_files(case):
                 extra += ["", f"def collect_shared_{i}(items):", "    result = []", "    for it in items:", "        result.append(it)", "    return result"]
             else:
                 extra += ["", f"def render_shared_{i}(items):", '    result = ""', "    for it in items:", "        result += str(it)", "    return result"]
+        if i % 3 == 1:
+            # several findings that are equal in every reported field (same rule, line, column 0, message): the result
+            # is a multiset, and merging per-worker results must not collapse them
+            m3 = 2600 + i
+            if lang == "py":
+                extra += ["", f"def trio_{i}(a):", f"    return [a, {m3}, {m3}, {m3}]"]
+            elif lang == "rs":
+                extra += ["", f"fn trio_{i}(a: i64) -> Vec<i64> {{", f"    vec![a, {m3}, {m3}, {m3}]", "}", "", f"fn trio_arr_{i}(a: i64) -> [i64; 4] {{", f"    [a, {m3}, {m3}, {m3}]", "}"]
+            else:
+                extra += ["", f"function trio_{i}(a) {{", f"    return [a, {m3}, {m3}, {m3}];", "}"]
         if i % 5 == 2:
             files[f"src/notes_{i}.txt"] = f"scratch note {i}\n"
         if i % 7 == 3:
